@@ -313,6 +313,12 @@ where
 }
 
 pub(crate) const BUFFER_SIZE: usize = 256;
+#[cfg(not(zlink_verif))]
 const MAX_BUFFER_SIZE: usize = 100 * 1024 * 1024; // Don't allow buffers over 100MB.
+// Verification hook: a small limit so that the boundary can be swept exhaustively.
+#[cfg(zlink_verif)]
+const MAX_BUFFER_SIZE: usize = 16 * BUFFER_SIZE;
+#[cfg(zlink_verif)]
+pub(crate) const VERIF_MAX_BUFFER_SIZE: usize = MAX_BUFFER_SIZE;
 
 static NEXT_ID: AtomicUsize = AtomicUsize::new(0);
